@@ -200,7 +200,7 @@ func init() {
 			return out
 		})
 		in.reg("internal/stringslite.Index", func(th *Thread, fn *ssa.Function, a []Value) Value {
-			return int64(strings.Index(th.str(a[0], "Index"), th.str(a[1], "Index")))
+			return th.ropeIndex(a[0], th.str(a[1], "Index separator"))
 		})
 	})
 }
